@@ -20,7 +20,9 @@ def withBal (m : Store) (a : Addr) : Option Nat → Store
 
 def c07 (ws : List String) : String :=
   match ws with
-  | [prices, units1, units2, _r2, maxU, sponsor, bal, maxFee, tsoff, scope, actions, dup, authok] =>
+  -- `_fm` (the parent block's fee state) only determines `prices` (the next block's unit prices,
+  -- an input of the model; the fee market is C13)
+  | [prices, units1, units2, _r2, maxU, sponsor, bal, maxFee, tsoff, scope, actions, dup, authok, _fm] =>
     if (dup != "0" && dup != "1") || (authok != "0" && authok != "1") then "bad-op" else
     match parseDims prices, parseDims units1, parseDims units2, parseDims maxU, parseHex sponsor,
       parseNat maxFee, parseInt tsoff, parseScope scope, parseActions actions, parseBal bal with
